@@ -60,6 +60,11 @@ def report_replay(ctx, rep, label):
     return len(strict)
 
 
+def _t(ctx, what):
+    import time
+    vlib.log("[%s] %s done at +%.0fs" % (ctx.pid, what, time.time() - ctx.t0))
+
+
 def run(ctx):
     q = ctx.quick
     ctx.level = "model_checking"
@@ -84,6 +89,7 @@ def run(ctx):
         ctx.check_model(r, cfg)
         ctx.require_coverage(r, ALL_ACTS)
 
+    _t(ctx, "model checking")
     # 2. spec -> code
     cases = ctx.path("cases.ndjson")
     n = 0
@@ -101,6 +107,7 @@ def run(ctx):
     for s in ob.sample_lines(cases, (0, n // 2, n - 1)):
         ctx.sample(s)
 
+    _t(ctx, "transition replay")
     sim = ctx.path("sim.ndjson")
     gr, k = ob.generate("Gen_ObjectOps", "Gen_ObjectOps_sim.cfg", sim, simulate=(150 if q else 3000), depth=31,
                         seed=ctx.seed % 100000, timeout=3000)
@@ -111,9 +118,10 @@ def run(ctx):
     ctx.extra_cov["max_history_replayed"] = rep2["max_history"]
     ctx.extra_cov["histories_simulated"] = k
 
+    _t(ctx, "simulated histories")
     # 3. code -> spec
     tr = ctx.path("random.ndjson")
-    rep3 = vlib.run_driver("drv_ops", ["random", "--n", 120 if q else 2500, "--len", 30, "--out", tr], env=ctx.env())
+    rep3 = vlib.run_driver("drv_ops", ["random", "--n", 80 if q else 2000, "--len", 30, "--out", tr], env=ctx.env())
     out = vlib.validate_trace_cases(ob.SPEC, "Trace_ObjectOps", tr, cfg="Trace_ObjectOps.cfg", reset_events=("reset",),
                                     max_rejections=12, timeout=3000, heap="8g")
     for r in out["results"]:
@@ -133,6 +141,7 @@ def run(ctx):
         raise vlib.ToolError("vacuity: replay exercised err=%d of %d steps, %d read-backs" % (rep["err_steps"], rep["steps"], rep["roundtrips"]))
     ctx.exhaustive = False
 
+    _t(ctx, "trace validation")
     # 4. binding self-tests: a deliberately wrong projection must be reported by the replay
     # comparison, and a corrupted recorded tree must be rejected by the trace validator
     st = vlib.run_driver("drv_ops", ["replay", "--cases", sim, "--selftest", "true"], env=ctx.env(), timeout=3000)
